@@ -2475,7 +2475,9 @@ class Trimesh(Geometry3D):
 
         # check to see if the matrix has rotation
         # rather than just translation
-        has_rotation = not util.allclose(matrix[:3, :3], _IDENTITY3, atol=1e-6)
+        # (compared exactly: cached normals are kept as they are when this is
+        # False, and rotations below any tolerance would add up unnoticed)
+        has_rotation = not (matrix[:3, :3] == _IDENTITY3).all()
 
         # transform overridden center of mass
         if "center_mass" in self._data:
